@@ -69,7 +69,9 @@ sim::Json make_token(sim::Rng& rng, bool cmdline, bool allow_errors) {
       int where = (int)rng.below(4);
       name = where == 0 ? base + j : where == 1 ? j + base : where == 2 ? base.substr(0, base.size() / 2) + j + base.substr(base.size() / 2) : j + j;
     }
-    t.set("text", name + "=" + std::to_string(rng.range(1, 99)));
+    // the value of an unknown option is its value, whatever it looks like: now and then it reads like an assignment of its own
+    static const char* vals[] = {"tech:flagopt", "flagopt", "intopt=7", "tech:intopt=41", "timing=1", "stropt=zzz"};
+    t.set("text", name + "=" + (rng.chance(0.2) ? std::string(vals[rng.below(6)]) : std::to_string(rng.range(1, 99))));
     t.set("sem", "unknown");
     return t;
   }
